@@ -236,7 +236,7 @@ func corpus() []CorpusItem {
 	for _, sc := range scenarios {
 		var pre []ExecReq
 		for _, c := range scnPrelude() {
-			pre = append(pre, tx(DeployTx(c.Name, c.Source), ScnAcct))
+			pre = append(pre, tx(DeployTx(c.Name, c.Source), c.Signers...))
 		}
 		for k, stp := range sc.Steps(NewRng(3)) {
 			req := ExecReq{Kind: stp.Kind, Source: stp.Src}
